@@ -20,7 +20,7 @@ package kvs
 //@   requires [M0-keys] forall i uint64 :: i < len(pairs) ==> keyOK(kvs, pairs[i].Key) @C18 @C11
 //@   requires [M0-vals] forall i uint64 :: i < len(pairs) ==> len(pairs[i].Val) == 4096 @C18 @C11
 //@   allocates jrnl.Op
-//@   modifies jblk, jcommits, lastst
+//@   modifies jblk, jcommits, lastst, jtouched
 //@   ensures [M1-all] forall i uint64, b uint64 :: i < len(pairs) && lastOf(pairs, i) && b < 4096 ==> jblk[pairs[i].Key][b] == pairs[i].Val[b] @C18
 //@   ensures [M1-frame] forall k uint64, b uint64 :: (forall i uint64 :: i < len(pairs) ==> pairs[i].Key != k) ==> jblk[k][b] == old(jblk)[k][b] @C18
 //@   ensures [M2-durable] jcommits == old(jcommits) + 1 && (result <==> lastst == 1) && (!result ==> lastst == 4) @C18
@@ -35,7 +35,7 @@ package kvs
 //@   requires kvsInv(kvs)
 //@   requires [M0-keys] keyOK(kvs, key) @C18 @C11
 //@   allocates jrnl.Op, buf.Buf, []uint8, kvs.KVPair
-//@   modifies jcommits, lastst
+//@   modifies jcommits, lastst, jtouched
 //@   ensures [G1-value] result0 != nil && result0.Key == key && len(result0.Val) == 4096 && (forall b uint64 :: b < 4096 ==> result0.Val[b] == jblk[key][b]) @C18
 //@   ensures [G1-copy] fresh(result0.Val) @C18
 //@   ensures [G2-readonly] jblk == old(jblk) @C18
